@@ -336,6 +336,15 @@ def shapes(tier):
     spec = mixed_layout()
     spec["mods"] = [ins("d0", 1, "alias_data")]
     out.append(("mixed/%s" % mods_name(spec["mods"]), spec))
+    for at in (0, 1, 3):
+        spec = text_layout("jcc:s0")
+        spec["mods"] = [ins("b1", at, "trail_label")]
+        out.append(("text/jcc:s0/%s" % mods_name(spec["mods"]), spec))
+    for blk, at in (("b1", 1), ("b1", 2), ("d0", 1), ("d1", 0)):
+        # data blocks only: the first block of a patch spliced into code stays code
+        spec = mixed_layout()
+        spec["mods"] = [ins(blk, at, "trail_label_data")]
+        out.append(("mixed/%s" % mods_name(spec["mods"]), spec))
     for p in ("ripimm:s2", "ripimm4:s0"):
         spec = text_layout("jcc:s0")
         spec["mods"] = [ins("b1", 1, p)]
